@@ -224,6 +224,34 @@ class _InlineTemps(ast.NodeTransformer):
         return False
 
 
+class _DeElse(ast.NodeTransformer):
+    """Normal form (behaviour-preserving): when the if-arm always leaves the enclosing block (ends in return / raise / continue / break)
+    an else-arm is read as the statements that follow the if:  `if c: A; return  else: B`  ->  `if c: A; return` ; `B`."""
+    TERM = (ast.Return, ast.Raise, ast.Continue, ast.Break)
+
+    def _block(self, stmts):
+        out = []
+        for st in stmts:
+            if isinstance(st, ast.If) and st.orelse and st.body and isinstance(st.body[-1], self.TERM):
+                rest, st.orelse = st.orelse, []
+                out.append(st)
+                out.extend(self._block(rest))
+            else:
+                out.append(st)
+        return out
+
+    def generic_visit(self, node):
+        super().generic_visit(node)
+        for field in ('body', 'orelse', 'finalbody'):
+            v = getattr(node, field, None)
+            if isinstance(v, list) and v and isinstance(v[0], ast.stmt):
+                setattr(node, field, self._block(v))
+        if isinstance(node, ast.Try):
+            for h in node.handlers:
+                h.body = self._block(h.body)
+        return node
+
+
 _CMP_SWAP = {ast.Lt: ast.Gt, ast.Gt: ast.Lt, ast.LtE: ast.GtE, ast.GtE: ast.LtE, ast.Eq: ast.Eq, ast.NotEq: ast.NotEq}
 
 
@@ -280,7 +308,9 @@ class Program:
             except SyntaxError as exc:
                 raise AnalysisError(f'cannot parse {path}: {exc}') from exc
             tree = _CanonCompare().visit(tree)
+            tree = _DeElse().visit(tree)
             tree = _Canon().visit(tree)
+            tree = _DeElse().visit(tree)
             tree = _InlineTemps().visit(tree)
             name = fname[:-3]
             mod = ModuleInfo(name, path, src, tree)
